@@ -315,12 +315,14 @@ def evaluate(mod, cases, modes, tier, timeout_s=None, retry_hangs=True):
     retried = 0
     for mode in (modes if retry_hangs else []):
         for batch in range(6):
-            again = [(i, r['case'], 10 * timeout_s) for i, r in enumerate(recs)
+            long_t = min(10 * timeout_s, max(60.0, 2 * timeout_s))
+            again = [(i, r['case'], long_t) for i, r in enumerate(recs)
                      if r['impl'].get(mode) == 'HANG' and r['model'] != 'FUEL' and not r.get('_retried_' + mode)][:8]
             if not again:
                 break
             retried += len(again)
-            res = run_impl(mod.PROP, mode, again, min(4, nchild), 10 * timeout_s, getattr(mod, 'EXTRA_ENV', None))
+            log('  [%s] re-running %d unpredicted HANG case(s) with a %.0f s limit' % (mode, len(again), long_t))
+            res = run_impl(mod.PROP, mode, again, min(8, nchild), long_t, getattr(mod, 'EXTRA_ENV', None))
             still = 0
             for (i, _, _) in again:
                 recs[i]['_retried_' + mode] = True
@@ -453,7 +455,9 @@ def main(prop, tier='quick', seed=None, replay=None):
                 seen.add(k); uniq.append(c)
         n_generated = len(cases)
         cases = uniq
+        t_ph = time.time()
         recs, timing = evaluate(mod, cases, modes, tier)
+        log('  evaluated %d cases in %.0f s %s' % (len(cases), time.time() - t_ph, timing))
 
         # extra obligations from generated files (C13) are handled by the module itself
         extra = mod.extra_checks(tier) if hasattr(mod, 'extra_checks') else {'violations': [], 'info': {}}
@@ -471,6 +475,8 @@ def main(prop, tier='quick', seed=None, replay=None):
                     recs[i] = r2
                     not_reproduced += 1
         timing['failures_not_reproduced_on_rerun'] = not_reproduced
+        log('  confirmation pass: %d suspect(s), %d not reproduced; %.0f s since evaluation started'
+            % (len(suspects), not_reproduced, time.time() - t_ph))
 
         feats, nontrivial = {}, 0
         kinds = {'ok': 0, 'violation': 0, 'corr': 0}
